@@ -200,9 +200,9 @@ def pad (n k : Nat) : Nat := (n + k - 1) / k * k
 /-- A CI8 image with an RGB5A3 palette: payload = 8×4-blocked indices of the padded image, every
 index inside the palette. -/
 def validTpl (t : Tex) : Bool :=
-  t.format == 9 && t.width < 2 ^ 16 && t.height < 2 ^ 16 &&
+  t.format == 9 && 1 ≤ t.width && 1 ≤ t.height && t.width < 2 ^ 16 && t.height < 2 ^ 16 &&
   t.payload.size == pad t.height 4 * pad t.width 8 &&
-  t.palette.size % 2 == 0 && t.palette.size / 2 < 2 ^ 16 &&
+  t.palette.size % 2 == 0 && 2 ≤ t.palette.size && t.palette.size / 2 < 2 ^ 16 &&
   t.payload.all (fun b => b.toNat < t.palette.size / 2) && t.name == [] && t.stored == []
 
 /-- Image header at `ih` (36 bytes): height, width, format, data pointer; palette header at `ph`
